@@ -50,7 +50,7 @@ mod verif_c10_mode_s {
         }
     }
 
-    //@ob id=C10.mode_s.precedence flags=noassert props=C10,C07,C11,C01 tier=quick kind=harness fns=plane/from_squitter/from_mode_s.rs:update_from_mode_s draw=frame28
+    //@ob id=C10.mode_s.precedence flags=noassert props=C10,C07,C11,C01,C19 tier=quick kind=harness fns=plane/from_squitter/from_mode_s.rs:update_from_mode_s draw=frame28
     //@region Comm-B part of the row step for every combination of recogniser results, every row, -R on/off: BDS 2,0 -> callsign, BDS 3,0 -> threat flag; otherwise the first of 1,7 > 4,0 > 5,0 > 6,0 that is recognised AND (for 4,0/5,0/6,0) advertised by the recorded BDS 1,7 report or -R is applied, its decoded values copied into the row; no other parameter changes
     #[kani::proof]
     #[kani::unwind(34)]
@@ -162,7 +162,7 @@ mod verif_c10_mode_s {
         kani::cover!(true, "reach_end");
     }
 
-    //@ob id=C10.mode_s.no_panic flags=noassert mem=high props=C01,C10 tier=quick kind=harness fns=plane/from_squitter/from_mode_s.rs:update_from_mode_s,bds.rs:bds,bds/bds_4_4.rs:is_bds_4_4,bds/bds_4_5.rs:is_bds_4_5,meteo.rs:temperature_4_4 draw=frame28
+    //@ob id=C10.mode_s.no_panic flags=noassert mem=high props=C01,C10,C19 tier=quick kind=harness fns=plane/from_squitter/from_mode_s.rs:update_from_mode_s,bds.rs:bds,bds/bds_4_4.rs:is_bds_4_4,bds/bds_4_5.rs:is_bds_4_5,meteo.rs:temperature_4_4 draw=frame28
     //@region Comm-B part with the REAL recognisers for all 112-bit frames, every row, -R on/off: no panic, no arithmetic overflow (including the meteorological registers 4,4 / 4,5 the property does not constrain)
     #[kani::proof]
     #[kani::unwind(34)]
